@@ -36,7 +36,7 @@ if meta.get("patch_applies"):
     sh(f"git -C /repo worktree remove --force {wt2}")
     assert sh(f"git -C /repo worktree add --detach {wt2} HEAD").returncode == 0
     try:
-        assert sh(f"git -C {wt2} apply {seed}/patch.diff").returncode == 0
+        assert sh(f"git -C {wt2} apply {seed}/patch.diff").returncode == 0 or sh(f"cd {wt2} && patch -p1 --fuzz=3 -s < {seed}/patch.diff").returncode == 0, "patch no longer applies"
         t0 = time.time()
         c = sh(f"cd {V} && ./check {pid} --tier quick --repo {wt2}")
         meta["check_exit"] = c.returncode
